@@ -22,6 +22,10 @@ mod tlv;
 
 mod fuzzdrv;
 mod gen;
+mod monitors;
+mod node;
+mod scen;
+mod world;
 mod props;
 mod refmodel;
 mod runner;
@@ -80,11 +84,39 @@ fn main() {
             };
             let seed = runner::seed_from_env();
             let code = match args[2].as_str() {
+                p @ ("C01" | "C02" | "C03" | "C04" | "C05" | "C07" | "C08" | "C11") => props::worldprops::run_world_check(props::worldprops::spec(p).unwrap(), tier, seed),
+                "C09" => props::worldprops::run_c09(tier, seed),
                 "C12" => props::c12::run(tier, seed),
                 "C18" => props::c18::run(tier, seed),
                 _ => usage(),
             };
             std::process::exit(code);
+        }
+        "smoke" => {
+            // generate N scenarios with the default profile, print the last trace and all violations
+            use proptest::strategy::{Strategy, ValueTree};
+            let n: usize = args[2].parse().unwrap_or(1);
+            let mut runner = proptest::test_runner::TestRunner::deterministic();
+            let strat = scen::scenario_strategy(scen::Profile::default());
+            let mut counts = std::collections::BTreeMap::new();
+            let t0 = std::time::Instant::now();
+            for i in 0..n {
+                let scn = strat.new_tree(&mut runner).unwrap().current();
+                let out = props::worldprops::run_world(&scn);
+                for v in &out.violations {
+                    let e = counts.entry(format!("{}:{}", v.prop, v.kind)).or_insert((0usize, String::new(), 0usize));
+                    e.0 += 1;
+                    if e.1.is_empty() { e.1 = v.detail.clone(); e.2 = i; }
+                }
+                if i + 1 == n || std::env::var("VERIF_DUMP").ok().and_then(|s| s.parse::<usize>().ok()) == Some(i) {
+                    println!("{}", serde_json::to_string_pretty(&props::worldprops::describe(&scn)).unwrap());
+                    for l in &out.trace { println!("{l}"); }
+                    println!("{:?}", out.stats);
+                    for v in &out.violations { println!("VIOL {} {} {}", v.prop, v.kind, v.detail); }
+                }
+            }
+            println!("{} scenarios in {:.2}s", n, t0.elapsed().as_secs_f64());
+            for (k, (c, d, i)) in counts { println!("{c:6} {k}  e.g. case {i}: {d}"); }
         }
         "replay" => {
             let text = std::fs::read_to_string(&args[2]).unwrap_or_else(|e| {
@@ -99,6 +131,10 @@ fn main() {
             let engine = v["engine"].as_str().unwrap_or("").to_string();
             let case = v["case"].clone();
             let rep = match prop.as_str() {
+                _ if engine == "world" => {
+                    let p: &'static str = Box::leak(prop.clone().into_boxed_str());
+                    props::worldprops::replay_world(p, case)
+                }
                 "C12" => props::c12::replay(&engine, case),
                 "C18" => props::c18::replay(&engine, case),
                 _ => None,
